@@ -26,6 +26,7 @@ type bucket struct {
 	tokens     int
 	lastRefill time.Time
 	mutex      sync.Mutex // Only lock when modifying tokens
+	deleted    bool       // set by cleanup (under mutex) once the bucket is removed from the map
 }
 
 // NewTokenBucketRateLimiter creates a new token bucket rate limiter
@@ -48,6 +49,13 @@ func (rl *TokenBucketRateLimiter) Allow(clientIP string) bool {
 	b := rl.getOrCreateBucket(clientIP)
 
 	b.mutex.Lock()
+	// A bucket that cleanup removed between the lookup and the lock must not be spent
+	// from (a fresh full bucket may already exist): use the live bucket instead
+	for b.deleted {
+		b.mutex.Unlock()
+		b = rl.getOrCreateBucket(clientIP)
+		b.mutex.Lock()
+	}
 	defer b.mutex.Unlock()
 
 	rl.refillTokens(b)
@@ -117,11 +125,13 @@ func (rl *TokenBucketRateLimiter) cleanup() {
 
 		b.mutex.Lock()
 		shouldDelete := b.lastRefill.Before(cutoff)
-		b.mutex.Unlock()
-
 		if shouldDelete {
+			// Delete while holding the bucket lock and mark it, so a concurrent
+			// Allow that already holds a pointer to it notices and re-fetches
+			b.deleted = true
 			rl.buckets.Delete(ip)
 		}
+		b.mutex.Unlock()
 		return true // continue iteration
 	})
 }
